@@ -51,7 +51,6 @@ Fixpoint subscribe_node (ssid : list N) (s : N) (n : node) : node * bool :=
     (Node (nsubs n) (aput w c' (nkids n)), added)
   end.
 
-Definition is_nil {A} (l : list A) : bool := match l with [] => true | _ => false end.
 
 (* Trie.Unsubscribe: None when the path does not exist (early return).  Result: new node, whether
    the subscriber was removed (count--), and the "orphan me" signal of node.orphan(): raised at
